@@ -128,17 +128,28 @@ func (vc *VC) loadElem(st *State, s Val, idx Term, et types.Type) Val {
 	return vc.load(st, vc.elemAddr(s, idx, et), et)
 }
 
-// sliceSet is the ghost set of element values of a slice value built by
-// appends: sset(arr, off, len). It is only constrained by append (and empty for
-// len 0), so it describes the contents at the time of the last append.
-func (vc *VC) sliceSet(s Val) Term {
-	vc.decls.Fun("sset", []Sort{SInt, SInt, SInt}, ArrSort(SInt, SBool))
-	t := App(ArrSort(SInt, SBool), "sset", s.T, s.Off, s.Len)
-	if s.Len.S == "0" {
-		k := "sset0:" + t.S
-		if !vc.facts[k] {
-			vc.facts[k] = true
-			vc.assumeRaw(Eq(t, Term{"((as const (Array Int Bool)) false)", ArrSort(SInt, SBool)}))
+// sliceSet is the set of element values of a slice: sset(E, off, len) stands for
+// { E[k] | off <= k < off+len } where E is the current content of the slice's backing
+// array. It is a function of the contents, so it says nothing once an element is
+// overwritten; append (and len 0) are the only places that constrain it.
+func (vc *VC) sliceSet(st *State, s Val) Term {
+	et := s.Typ.Underlying().(*types.Slice).Elem()
+	name := "Elem." + typeKey(et)
+	A := vc.heapGet(st, name, ArrSort(SInt, ArrSort(SInt, SInt)))
+	return vc.sliceSetOf(Select(A, s.T), s.Off, s.Len)
+}
+
+func (vc *VC) sliceSetOf(content, off, ln Term) Term {
+	vc.decls.Fun("sset", []Sort{ArrSort(SInt, SInt), SInt, SInt}, ArrSort(SInt, SBool))
+	t := App(ArrSort(SInt, SBool), "sset", content, off, ln)
+	if k := "sset0:" + t.S; !vc.facts[k] && vc.qdepth == 0 {
+		// the content set of an empty slice is empty
+		vc.facts[k] = true
+		empty := Eq(t, Term{"((as const (Array Int Bool)) false)", ArrSort(SInt, SBool)})
+		if ln.S == "0" {
+			vc.assumeRaw(empty)
+		} else {
+			vc.assumeRaw(Implies(Eq(ln, IntLit(0)), empty))
 		}
 	}
 	return t
